@@ -15,15 +15,15 @@ import (
 
 // Program is the loaded SSA program plus engine-wide immutable tables.
 type Program struct {
-	Prog     *ssa.Program
-	Pkg      *ssa.Package
-	Fset     *token.FileSet
-	RepoDir  string
-	fnInfos  sync.Map // *ssa.Function -> *fnInfo
-	globalID map[*ssa.Global]int
-	Base     *State // state after package init (shared, never mutated)
-	rtTypes  map[string]types.Type
-	typeMu   sync.Mutex
+	Prog      *ssa.Program
+	Pkg       *ssa.Package
+	Fset      *token.FileSet
+	RepoDir   string
+	fnInfos   sync.Map // *ssa.Function -> *fnInfo
+	globalID  map[*ssa.Global]int
+	Base      *State // state after package init (shared, never mutated)
+	rtTypes   map[string]types.Type
+	typeMu    sync.Mutex
 	implCache map[[2]types.Type]bool
 
 	tMap, tSlice, tIface, tNumber, tError, tRtype types.Type
